@@ -2,12 +2,9 @@ SPECIFICATION Spec
 CONSTANTS
   NMsgs = 4
   QosOf <- Q_2211
-  MaxFaults = 3
+  MaxFaults = 2
   SessionLoss = TRUE
   LossyWrites = FALSE
-INVARIANT Qos2AtMostOnce
-INVARIANT CompletedIsDelivered
-INVARIANT NoPubrelUnanswered
-INVARIANT NothingStuck
+INVARIANT EmitScript
 VIEW NoHist
 CHECK_DEADLOCK FALSE
